@@ -38,6 +38,7 @@ type specCtx struct {
 	record   map[string]*Sort
 	noUnfold bool
 	results  []Val
+	goal     bool                // the expression is being proved (not assumed): no trigger rebasing, one-directional byte equalities
 	iters    func(ord int) *Term // value of "#nK": completed iterations of loop K when the function returned
 }
 
@@ -363,7 +364,8 @@ func (c *specCtx) eval(x Expr) Val {
 			if v.Type == "bool" {
 				s = BoolS
 			}
-			bv := c.e.fresh("q_"+v.Name, s)
+			// canonical names (by nesting depth) so that the same clause evaluated twice yields the same text
+			bv := Var(fmt.Sprintf("q%d_%s", len(sub.bound), v.Name), s)
 			bvs = append(bvs, bv)
 			sub.bound[bv.Name] = true
 			if s == IntS {
@@ -371,6 +373,9 @@ func (c *specCtx) eval(x Expr) Val {
 				// a trigger s[j] on a slice with a symbolic offset cannot be matched (off+j is arithmetic):
 				// quantify over the absolute index a = off + j instead.
 				for _, tg := range n.Trig {
+					if c.goal {
+						break
+					}
 					for _, te := range tg {
 						if ix := findIndexBy(te, v.Name); ix != nil {
 							if bs, ok := sub.tryEval(ix.X); ok {
@@ -712,10 +717,13 @@ func (c *specCtx) evalCall(n *ECall) Val {
 		}
 		ra, oa, la := c.byteReaderAbs(a)
 		rb, ob, lb := bc.byteReaderAbs(b)
-		i := c.e.fresh("k", IntS)
-		j := c.e.fresh("k", IntS)
+		i := Var(fmt.Sprintf("k%d_a", len(c.bound)), IntS)
+		j := Var(fmt.Sprintf("k%d_b", len(c.bound)), IntS)
 		f1 := Forall([]*Term{i}, [][]*Term{{ra(i)}}, Implies(And(Le(oa, i), Lt(i, Add(oa, la))), Eq(ra(i), rb(Add(ob, Sub(i, oa))))))
 		f2 := Forall([]*Term{j}, [][]*Term{{rb(j)}}, Implies(And(Le(ob, j), Lt(j, Add(ob, lb))), Eq(rb(j), ra(Add(oa, Sub(j, ob))))))
+		if c.goal {
+			return VBool{And(Eq(la, lb), f1)} // f2 is the same statement re-indexed
+		}
 		return VBool{And(Eq(la, lb), f1, f2)}
 	case "called", "notCalled", "callCount":
 		name := n.Args[0].(*EIdent).Name
@@ -880,7 +888,12 @@ func (c *specCtx) applySpecVals(sf *SpecFunc, vals []Val) Val {
 		default:
 			c.fail("rec spec function %s must return int or bool", sf.Name)
 		}
-		c.st.assume(Eq(app, bt))
+		df := Eq(app, bt)
+		if c.st.defFact == nil {
+			c.st.defFact = map[string]bool{}
+		}
+		c.st.defFact[df.Key()] = true // shared (append-only) across forks: only used as a hint for premise selection
+		c.st.assume(df)
 	}
 	if ri.ret == BoolS {
 		return VBool{app}
